@@ -150,7 +150,7 @@ def compile_inline_python(compiler, expr, root, code):
         o = asty.parse(
             expr,
             textwrap.dedent(code) if exec_mode else "(" + code + "\n)",
-            compiler.filename,
+            compiler.filename or "<string>",
             "exec" if exec_mode else "eval",
         ).body
     except (SyntaxError, ValueError) as e:
